@@ -6,45 +6,8 @@ import os
 
 HERE = os.path.dirname(os.path.dirname(os.path.abspath(__file__)))
 
-# property id -> (technique, level text, level note, design ref)
-CLAIMED = {
-    "C10": (
-        "differential testing against an independent SVG 1.1 path-BNF parser: exhaustive small-scope string/token enumeration + Hypothesis grammar-derived and mutated strings; print/parse round-trip over arbitrary finite floats",
-        "Exploration. Every string up to a length bound over an 11-character alphabet (4 prefixes) and every short token sequence over 15 number spellings x 6 separators is compared with an independent maximal-munch parser of the SVG 1.1 path BNF; longer strings and float round-trips are sampled with Hypothesis. Bounded scopes are enumerated completely, the rest is sampled: absence of violations is not established beyond those scopes.",
-        "Trusted: the reference parser vlib/refsvg/pathgrammar.py (self-tested in setup), Python float() for token values.",
-        "DESIGN.md 2/C10",
-    ),
-    "C12": (
-        "Hypothesis-generated arcs (log-uniform magnitudes, boundary classes built on purpose) checked geometrically against an independent centre parameterisation (SVG implementation notes F.6.5/F.6.6)",
-        "Exploration. Tens of thousands of generated arcs per run (all flag combinations, radii 1e-3..1e4, rotations beyond a full turn, exactly/barely fitting, too small, zero, negative radii, coincident endpoints) through arc_to_cubic and SVGPath.arcs_to_cubics; every emitted cubic is sampled against the true ellipse (0.03% bound), sweep direction/extent and exact end point are checked. Sampling, not proof.",
-        "Trusted: vlib/refsvg/arcref.py (self-tested on hand-computed arcs). End points closer than 1e-6 of the coordinate magnitude are fenced (ill-conditioned for any implementation).",
-        "DESIGN.md 2/C12",
-    ),
-    "C09": (
-        "exhaustive small-scope enumeration of command sequences + Hypothesis-generated paths/shapes, each rewrite compared with the input through an independent SVG path interpreter (control polygons / sampled Hausdorff distance / own shape outline formulae)",
-        "Exploration. All sequences of <=K commands (K=2 quick, 4 thorough) over the 20 commands on a small lattice are enumerated completely; longer float-valued sequences (incl. near-closing relative loops), and the seven basic shapes with degenerate parameters are sampled. Every public path rewrite is interpreted before/after by an independent implementation of SVG path semantics. Bounded scope + sampling, not proof.",
-        "Trusted: vlib/refsvg/geom.py interpreter and arcref (self-tested). Moveto-only subpaths are not compared; a shorthand directly after a zero-length (omitted) arc is fenced as spec-ambiguous; degenerate (zero-size) rect/circle/ellipse are only required to enclose nothing inside their box.",
-        "DESIGN.md 2/C09",
-    ),
-    "C02": (
-        "differential rendering: Hypothesis-generated documents are converted and both source and result are evaluated by an independent point-sampling SVG evaluator (vlib/refsvg/render.py: own XML/cascade/transform/use/viewport/clip/compositing semantics, no Skia); ordered paint stack and composited colour compared at points outside the 0.4% edge band",
-        "Exploration. Thousands of generated documents per run over the structural grammar (shapes, paths, nested groups, transform lists, defs/use, nested svg viewports, display:none), ~300 sample points each incl. points 2 and 4 epsilon off every source and output edge. Sampling of an infinite input space: finds placement/ordering/instancing errors larger than ~2 epsilon, proves nothing.",
-        "Trusted: vlib/refsvg (self-tested on hand-computed scenes); a conversion that raises is a rejection, not a violation. A mismatch that disappears on the polygonal twin of the same document (curves flattened to lines, everything else kept) is attributed to skia-pathops' curve handling (known finding ENGINE, counted in evidence) and not reported; wrapper-logic errors show on the twin too.",
-        "DESIGN.md 2/C02",
-    ),
-    "C03": (
-        "differential rendering: Hypothesis-generated documents are converted and both source and result are evaluated by an independent point-sampling SVG evaluator (vlib/refsvg/render.py: own XML/cascade/transform/use/viewport/clip/compositing semantics, no Skia); ordered paint stack and composited colour compared at points outside the 0.4% edge band",
-        "Exploration. Generated documents with 1-3 clipPaths (rule-sensitive children: rings, stars, self-intersecting paths; clip-rule per child; transforms on clipPath and children; clipPath clipped by another; clip-path on shapes, groups, use, stacked) compared by differential rendering; output must not mention clips. Sampling, not proof.",
-        "Trusted: vlib/refsvg (self-tested on hand-computed scenes); a conversion that raises is a rejection, not a violation. A mismatch that disappears on the polygonal twin of the same document (curves flattened to lines, everything else kept) is attributed to skia-pathops' curve handling (known finding ENGINE, counted in evidence) and not reported; wrapper-logic errors show on the twin too. Fences: clipPathUnits=objectBoundingBox, clip-path on clipPath children, display:none clipPath children.",
-        "DESIGN.md 2/C03",
-    ),
-    "C05": (
-        "differential rendering: Hypothesis-generated documents are converted and both source and result are evaluated by an independent point-sampling SVG evaluator (vlib/refsvg/render.py: own XML/cascade/transform/use/viewport/clip/compositing semantics, no Skia); ordered paint stack and composited colour compared at points outside the 0.4% edge band",
-        "Exploration. Generated documents with overlapping geometry where shapes, groups, root and use set random subsets of fill/fill-opacity/opacity/fill-rule/display via attribute and/or style (conflicts: style must win); composited RGBA (1.5/255) and paint stack compared. Sampling, not proof.",
-        "Trusted: vlib/refsvg (self-tested on hand-computed scenes); a conversion that raises is a rejection, not a violation. A mismatch that disappears on the polygonal twin of the same document (curves flattened to lines, everything else kept) is attributed to skia-pathops' curve handling (known finding ENGINE, counted in evidence) and not reported; wrapper-logic errors show on the twin too. Strokes are not part of this campaign (C04 covers stroke paint/opacity).",
-        "DESIGN.md 2/C05",
-    ),
-}
+# property id -> {technique, level_text, level_note, design_ref}; edit tools/claimed.json
+CLAIMED = {k: (v["technique"], v["level_text"], v["level_note"], v["design_ref"]) for k, v in json.load(open(os.path.join(HERE, "tools", "claimed.json"))).items()}
 
 NOT_YET = "check not built yet in this round (work in progress; see DESIGN.md section 5 for the order of work)"
 
